@@ -15,7 +15,7 @@ RULE = ("every sampled evaluate call (direct workload: all classes/kernels/metri
 ASSUMPTIONS = ["gradient equivariance is compared on the simplex-tangent part and only where the numeric-derivative "
                "smoothness test accepts the worst coordinate (optimal-transport duals are not unique at kinks)"]
 EVAL_COUNTER = "calls_monitored"
-REQUIRED = {"quick": {"calls_monitored": 1500, "rel:sample_perm": 1000, "rel:cluster_perm": 1000,
+REQUIRED = {"quick": {"calls_beyond_2^20_elements": 8, "calls_monitored": 1500, "rel:sample_perm": 1000, "rel:cluster_perm": 1000,
                       "rel:empty_cluster": 1000, "rel:grad_perm": 500, "bound:nonneg": 1500, "bound:constant_rows": 100,
                       "bound:mi_logK": 20, "bound:le_one": 200, "closed_simplex_calls": 150, "onehot_dtype_compared": 300},
             "thorough": {"calls_monitored": 30000, "rel:grad_perm": 10000}}
@@ -104,6 +104,8 @@ class State:
         if self.mode == "fit" and self.k % 3:
             return
         ctx.count("calls_monitored")
+        if P.ndim == 2 and P.shape[0] * P.shape[1] ** 2 > 2 ** 20:
+            ctx.count("calls_beyond_2^20_elements")
         cname = [c.__name__ for c in type(gem).__mro__ if c.__name__ in _gem.CONCRETE][0]
         dist = _gem.class_distance(gem)
         mode = "ovo" if gem.ovo else "ova"
